@@ -30,6 +30,8 @@ fn main() {
 
     match build_file(opt.source.clone(), btreeset! { get_standard_includes() }) {
         Ok(built) => {
+            // the file the flash image went to, the EEPROM image must not replace it
+            let mut code_path = None;
             // write to file code
             if !built.code.is_empty() {
                 let outpath = if let Some(output) = opt.output {
@@ -56,8 +58,8 @@ fn main() {
                     source_parent
                 };
 
-                match write_code_hex(outpath, &built) {
-                    Ok(()) => {}
+                match write_code_hex(outpath.clone(), &built) {
+                    Ok(()) => code_path = outpath.canonicalize().ok(),
                     Err(e) => {
                         failed = true;
                         println!(
@@ -95,14 +97,23 @@ fn main() {
                     source_parent
                 };
 
-                match write_eeprom_hex(outpath, &built) {
-                    Ok(()) => {}
-                    Err(e) => {
-                        failed = true;
-                        println!(
-                            "Failed to generate and write hex file {}, with error {}",
-                            file_name, e
-                        )
+                if code_path.is_some() && code_path == outpath.canonicalize().ok() {
+                    failed = true;
+                    println!(
+                        "Failed to write eeprom hex file for {}: {} is the file of the flash image",
+                        file_name,
+                        outpath.to_string_lossy()
+                    )
+                } else {
+                    match write_eeprom_hex(outpath, &built) {
+                        Ok(()) => {}
+                        Err(e) => {
+                            failed = true;
+                            println!(
+                                "Failed to generate and write hex file {}, with error {}",
+                                file_name, e
+                            )
+                        }
                     }
                 }
             } else {
